@@ -61,8 +61,42 @@ pub fn predicate(name: &str, c: &crate::case::Case) -> bool {
             }
             false
         }
-        // C20: the point set is an exact lattice (family label assigned by the generator)
-        "c20-lattice-family" => c.family == "L",
+        // C20: the support of the enclosing sphere can be (nearly) degenerate: the point set is an
+        // exact lattice (family label assigned by the generator), or among the points given to
+        // Welzl (the first 60) three share two coordinates exactly (collinear), four share one
+        // coordinate exactly (coplanar), or two are closer than 1e-3 of the set's extent (a
+        // sphere through both and any far point is ill conditioned)
+        "c20-degenerate-support" => {
+            if c.family == "L" {
+                return true;
+            }
+            let pts: Vec<[f64; 3]> = c.gens.iter().take(60).cloned().collect();
+            let m = pts.len();
+            for a in 0..3 {
+                let mut xs: Vec<u64> = pts.iter().map(|p| p[a].to_bits()).collect();
+                xs.sort();
+                if xs.windows(4).any(|w| w[0] == w[3]) {
+                    return true;
+                }
+                let b = (a + 1) % 3;
+                let mut xy: Vec<(u64, u64)> = pts.iter().map(|p| (p[a].to_bits(), p[b].to_bits())).collect();
+                xy.sort();
+                if xy.windows(3).any(|w| w[0] == w[2]) {
+                    return true;
+                }
+            }
+            let d2 = |p: &[f64; 3], q: &[f64; 3]| (0..3).map(|k| (p[k] - q[k]) * (p[k] - q[k])).sum::<f64>();
+            let mut ext2: f64 = 0.;
+            let mut min2 = f64::INFINITY;
+            for i in 0..m {
+                for j in 0..i {
+                    let d = d2(&pts[i], &pts[j]);
+                    ext2 = ext2.max(d);
+                    min2 = min2.min(d);
+                }
+            }
+            m >= 3 && min2 < 1e-6 * ext2
+        }
         _ => false,
     }
 }
